@@ -19,14 +19,17 @@ import itertools, json, math
 from common import import_qib, run_correspondence
 
 PROP = "C14"
-LEAN_FILES = ["QibProofs/Properties/C14.lean"]
+LEAN_FILES = ["QibProofs/Properties/C14.lean", "QibProofs/Properties/C14Shift.lean"]
 GEN = ()
 DRIVER = "drv_lattice"
 LEVEL_TEXT = ("Lean 4 theorems over a hand-written Mathlib-free model of the index arithmetic of every lattice class "
               "(mixed-radix ravel/unravel, roll pairing with boundary cut, brick embedding with surplus points, "
               "hexagonal coordinates as exact integer pairs, odd-face numbering by a counter loop, layered blocks), "
               "valid for all shapes/flags/conventions; the model is tied to the code by exact comparison of nsites, "
-              "the whole adjacency matrix and every index<->coordinate map, exhaustive over the small shapes.")
+              "the whole adjacency matrix and every index<->coordinate map, exhaustive over the small shapes. "
+              "IntegerLattice.adjacency_matrix_axis_shift(d, s) (C14Shift.lean): accepted iff s is 1 or -1; the adjacency matrix is the entrywise OR of "
+              "the 2 ndim axis/shift matrices; each of them is a partial permutation described in coordinates; the opposite shift gives the transpose; "
+              "tied by comparing every axis/shift matrix of all small grids with all boundary flags.")
 ASSUMPTIONS = ["np.roll / reshape / unravel_index / ravel_multi_index / np.delete / np.block are modelled by their index formulas",
                "hexagonal float coordinates are compared after exact recovery of (row, 2y) resp. (2x, col); recovery tolerance 1e-9",
                "extents >= 1 (extent 0 gives an empty lattice and is not exercised)",
@@ -653,6 +656,82 @@ def setup():
     _ctx["qib"] = import_qib()
 
 
+# ---------------------------------------------------------------------------------------------
+# stage lat.shift: IntegerLattice.adjacency_matrix_axis_shift(d, s), the per-axis / per-shift summands of the adjacency matrix
+# (model QibModel/LatticeShift.lean, theorems C14Shift.lean)
+# ---------------------------------------------------------------------------------------------
+
+def shift_impl(case):
+    st, lat = get(case["lat"])
+    if st == "err":
+        return {"raised": lat}
+    out = []
+    for a in case["args"]:
+        s_, v = call(lambda: lat.adjacency_matrix_axis_shift(a["d"], a["s"]))
+        out.append({"raised": v} if s_ == "err" else canon_adj(v))
+    s_, v = call(lambda: lat.adjacency_matrix())
+    return {"shifts": out, "_adj": None if s_ == "err" else canon_adj(v), "nsites": int(lat.nsites)}
+
+
+def shift_req(case):
+    return {"op": "lat.shift", "lat": case["lat"], "args": case["args"]}
+
+
+def shift_compare(case, o, m):
+    if "harness_exception" in o:
+        return "harness exception: " + o["harness_exception"] + o.get("tb", "")
+    if "raised" in o:
+        return None if m == {"raised": o["raised"]} else f"constructor raised {o['raised']}, model {str(m)[:120]}"
+    for a, x, y in zip(case["args"], o["shifts"], m):
+        if x != y:
+            return f"adjacency_matrix_axis_shift(d={a['d']}, s={a['s']}): impl {str(x)[:150]} != model {str(y)[:150]}"
+    return None
+
+
+def shift_oracle(case, o):
+    """the statements of C14Shift on the implementation: guard, decomposition of the adjacency matrix, transposes, at most one 1 per row"""
+    if "shifts" not in o:
+        return []
+    bad = []
+    nd, n = len(case["lat"]["shape"]), o["nsites"]
+    mats = {}
+    for a, x in zip(case["args"], o["shifts"]):
+        ok_arg = a["s"] in (1, -1)
+        if isinstance(x, dict):
+            if ok_arg:
+                bad.append(("C14:axis-shift:valid-arguments-rejected", f"adjacency_matrix_axis_shift({a['d']}, {a['s']}) raised {x['raised']} on shape {case['lat']['shape']}"))
+            elif x["raised"] != "ValueError":
+                bad.append(("C14:axis-shift:wrong-rejection", f"s = {a['s']} raised {x['raised']}, documented ValueError"))
+            continue
+        if not ok_arg:
+            bad.append(("C14:axis-shift:invalid-shift-accepted", f"adjacency_matrix_axis_shift({a['d']}, {a['s']}) returned a matrix"))
+            continue
+        mats[(a["d"], a["s"])] = x
+        if any(sum(row) > 1 for row in x):
+            bad.append(("C14:axis-shift:row-not-functional", f"a row of the (d={a['d']}, s={a['s']}) matrix has more than one entry 1"))
+    if o["_adj"] is not None and len(mats) == 2 * nd and n > 0:
+        union = [[int(any(mats[k][i][j] for k in mats)) for j in range(n)] for i in range(n)]
+        if union != o["_adj"]:
+            bad.append(("C14:axis-shift:adjacency-is-not-the-union", f"OR over all axes and shifts != adjacency_matrix() for shape {case['lat']['shape']} pbc {case['lat']['pbc']}"))
+        for d in range(nd):
+            A, B = mats[(d, 1)], mats[(d, -1)]
+            if any(A[i][j] != B[j][i] for i in range(n) for j in range(n)):
+                bad.append(("C14:axis-shift:opposite-shift-is-not-the-transpose", f"axis {d} of shape {case['lat']['shape']} pbc {case['lat']['pbc']}"))
+    return bad
+
+
+def gen_shift(tier, rng):
+    T = tier == "thorough"
+    shapes = [[n] for n in range(1, 8 if T else 6)] + [[a, b] for a in range(1, 6 if T else 5) for b in range(1, 6 if T else 5)] + \
+             [[a, b, c] for a in range(1, 4) for b in range(1, 4) for c in range(1, 4 if T else 3)]
+    for shape in shapes:
+        nd = len(shape)
+        flagsets_ = [[bool((k >> t) & 1) for t in range(nd)] for k in range(2 ** nd)]
+        for pbc in flagsets_ + [True, False]:
+            args = [{"d": d, "s": s_} for d in range(nd) for s_ in (1, -1)] + [{"d": rng.randrange(nd), "s": s_} for s_ in (0, 2, -2)]
+            yield {"op": "lat.shift", "lat": {"cls": "integer", "shape": shape, "pbc": pbc}, "args": args}
+
+
 def run(rep, tier, rng, drv):
     setup()
     ext = "1-D extents 1..10, 2-D extents 1..7, 3-D integer extents 1..5" if tier == "thorough" else \
@@ -667,3 +746,9 @@ def run(rep, tier, rng, drv):
 
     run_correspondence(rep, drv, counted(gen_cases(tier, rng)), impl, model_req, compare, oracle,
                        "lat.nsites/adj/i2c/c2i", batch=400, nontrivial=lambda c, o: "raised" not in o and "harness_exception" not in o)
+
+    def counted_shift(cases):
+        for c in cases:
+            rep.count("integer:lat.shift:ndim=%d" % len(c["lat"]["shape"]))
+            yield c
+    run_correspondence(rep, drv, counted_shift(gen_shift(tier, rng)), shift_impl, shift_req, shift_compare, shift_oracle, "lat.shift", batch=200)
